@@ -149,6 +149,34 @@ def run_c17(tier, seed, mg, log, build):
     log['runs'].append({'flavour': 'rustc-probes', 'programs': len(results), 'wall_s': round(time.time() - t0, 1)})
 
 
+# ------------------------------------------------------------------ C08
+def run_c08_probes(mg, log):
+    """No run can observe a dropped Send/Sync bound: the compiler's verdict on five tiny programs does."""
+    depdir = os.path.join(TARGET, 'debug', 'debug', 'deps')
+    pdir = os.path.join(TARGET, 'probes', 'c08')
+    os.makedirs(pdir, exist_ok=True)
+    for name, src, expect in probes.c08_probes():
+        sp = os.path.join(pdir, name + '.rs')
+        open(sp, 'w').write(src)
+        ok, codes, first = compile_probe(sp, os.path.join(pdir, name), depdir)
+        try:
+            os.remove(os.path.join(pdir, name))
+        except OSError:
+            pass
+        count(mg, 'evaluations')
+        count(mg, 'send_sync_probes')
+        if ok is None:
+            mg.inconclusive.append('probe %s: %s' % (name, first))
+        elif expect == 'reject' and ok:
+            viol(mg, 'C08', 'C08/send-sync/%s' % name, name, 'this program must be rejected (a MemCase of a non-thread-safe type crossed a thread boundary bound) but it compiles')
+        elif expect == 'reject' and 'E0277' not in codes:
+            mg.inconclusive.append('probe %s rejected for an unrelated reason: %s %s' % (name, codes[:3], first))
+        elif expect == 'compile' and not ok:
+            viol(mg, 'C08', 'C08/send-sync/%s' % name, name, 'a MemCase of a thread-safe structure is no longer Send/Sync: %s' % first)
+        else:
+            count(mg, 'send_sync_probes_ok')
+
+
 # ------------------------------------------------------------------ C05
 def run_c05_probes(tier, seed, mg, log, build):
     """One small program per shape of the derive grammar: must compile, round-trip in both modes (Debug renderings equal)."""
@@ -417,8 +445,8 @@ def run(prop, tier, seed, mg, log, build, run_shards, merge, rundir, extra, clas
         b = build(fl, log)
         if isinstance(b, tuple):
             who, msg = classify_build_failure(b[1]) if classify_build_failure else ('harness', '')
-            if who == 'repo' and prop == 'C05':
-                mg.add_violation({'prop': 'C05', 'sig': 'C05/does-not-compile', 'root': 'universe A', 'val': None,
+            if who == 'repo':
+                mg.add_violation({'prop': prop, 'sig': '%s/does-not-compile' % prop if prop == 'C05' else '%s/universe-does-not-compile' % prop, 'root': 'universe A', 'val': None,
                                   'detail': 'a definition of the supported grammar, or the assertion that its derived ε-copy / serialisation type is the documented one, no longer compiles: ' + msg,
                                   'flavour': 'build'})
             else:
@@ -427,7 +455,7 @@ def run(prop, tier, seed, mg, log, build, run_shards, merge, rundir, extra, clas
         if fl == 'debug':
             binary = b
         monitor = prop
-        res = run_shards(monitor, fl, b, tier, seed, NCPU, extra, os.path.join(rundir, fl), timeout, log)
+        res = run_shards(monitor, fl, b, tier, seed, NCPU, extra + ['--scale', str(spec.get('scale', {}).get(tier, 2 if tier == 'quick' else 8))], os.path.join(rundir, fl), timeout, log)
         merge(prop, fl, res, mg)
         mg.sets.setdefault('feature_sets', set()).add('no-mmap' if fl == 'nommap' else 'default')
     if prop == 'C05':
@@ -448,5 +476,7 @@ def run(prop, tier, seed, mg, log, build, run_shards, merge, rundir, extra, clas
         run_c05_probes(tier, seed, mg, log, build)
     if prop in ('C08', 'C09') and binary:
         run_strace(prop, seed, mg, log, binary)
+    if prop == 'C08' and binary:
+        run_c08_probes(mg, log)
     if prop == 'C09':
         run_c09_probes(tier, seed, mg, log, build)
